@@ -220,6 +220,26 @@ def util(ctx):
     r = _ret(ev.run_fn(ctx.fn(MIL, 'reduce_indices'), [x], {}))
     ok = r is not None and len(calls) == 1 and calls[0][1] == -1 and all(sp.simplify(a - b) == 0 for a, b in zip(list(r), pq))
     ctx.ob('UTIL', loc + 'reduce_indices', 'indices are divided by their greatest common divisor taken along the last axis', bool(ok), 'got %s' % (None if r is None else list(r),), node=ctx.fn(MIL, 'reduce_indices'))
+    # concrete batches (3 and 4 indices): the divisor is the gcd of *all* indices of each vector
+    import math
+
+    def gcd_model(a, axis=None):
+        a = np.asarray(a, dtype=object)
+        if axis is None:
+            return sp.Integer(math.gcd(*[int(v) for v in a.ravel()]))
+        return np.apply_along_axis(lambda row: sp.Integer(math.gcd(*[int(v) for v in row])), axis, a) if a.ndim > 1 else sp.Integer(math.gcd(*[int(v) for v in a]))
+    for tag, batch in (('three indices', [[2, 4, 6], [3, 0, -9], [0, 0, 5], [7, -3, 2]]), ('four indices', [[2, 2, -4, 1], [2, -2, 0, 4], [0, 0, 0, 2], [4, -2, -2, 6], [-4, -4, 8, -3]]),
+                       ('single four-index vector', [2, 2, -4, 1])):
+        ev = SymEval(module_aliases(ctx.mod(MIL)))
+        ev.np_override = {'numpy.gcd.reduce': gcd_model}
+        try:
+            r = _ret(ev.run_fn(ctx.fn(MIL, 'reduce_indices'), [arr(batch)], {}))
+        except (Opaque, WouldRaise, ZeroDivisionError) as e:      # a zero divisor: numpy integer division yields zeros with a warning, wrong either way
+            r = None
+        rows = np.atleast_2d(np.asarray(batch, dtype=object))
+        want = np.array([[sp.Integer(v) / math.gcd(*[int(x) for x in row]) for v in row] for row in rows], dtype=object).reshape(np.shape(batch))
+        ctx.ob('UTIL', loc + 'reduce_indices', '%s: each vector is divided by the gcd of all its indices (same direction, coprime)' % tag, r is not None and np.shape(r) == np.shape(batch) and equal(np.asarray(r, dtype=object), want, deep=False),
+               'got %s' % (None if r is None else np.asarray(r).tolist(),), node=ctx.fn(MIL, 'reduce_indices'), key='reduce ' + tag)
     paths = SymEval(module_aliases(ctx.mod(MIL))).run_fn(ctx.fn(MIL, 'reduce_indices'), [symarray('b', (5,))], {})
     ctx.ob('UTIL', loc + 'reduce_indices', 'neither 3 nor 4 indices: refused', not [p for p in paths if p.done == 'return'], node=ctx.fn(MIL, 'reduce_indices'), key='reduce shape')
     # all_indices(1)
